@@ -225,7 +225,7 @@ func (r *Runner) RunFaultedFrom(sc *Script, pt Point, errno string, persistent b
 	if rerr == nil {
 		return 0, nil
 	}
-	if ee, ok := rerr.(*exec.ExitError); ok && (ee.ExitCode() == 80 || ee.ExitCode() == 81) {
+	if ee, ok := rerr.(*exec.ExitError); ok && ee.ExitCode() >= 80 && ee.ExitCode() <= 111 {
 		return ee.ExitCode(), nil
 	}
 	return -1, fmt.Errorf("faulted run (%s %s #%d): %v: %s", errno, pt.Syscall, pt.N, rerr, out)
